@@ -117,6 +117,10 @@ class JSONValidator:
         except RecursionError:
             # Pathologically nested input exhausts the parser's stack: reject it
             return False, "JSON nesting too deep to parse"
+        except ValueError as e:
+            # Not a JSONDecodeError: e.g. an integer literal beyond the
+            # interpreter's digit limit ("1" * 5000)
+            return False, f"Invalid JSON: {e}"
 
     def _measure_depth(self, obj, current: int = 0) -> int:
         """Measure nesting depth of JSON object."""
